@@ -3,7 +3,7 @@
    workers, promise store, HTTP push handlers with retry); monitors: model/IngestSpec.v. *)
 From Coq Require Import List NArith ZArith Bool.
 From Qryn Require Import model.Ingest model.PushHandler model.IngestSpec proofs.IngestBase proofs.IngestAck
-  proofs.IngestSpecProofs.
+  proofs.IngestSpecProofs proofs.IngestHandler proofs.IngestDrain.
 Import ListNotations.
 
 (* For every configuration (workers of any kind / round-robin group / maxQueueSize, retry count), every
@@ -48,3 +48,64 @@ Theorem promise_resolved_with_its_block : forall cfg n tr g es,
   run_mon (smon_step MLenient) (smon_init (length cfg)) es <> None.
 Proof. intros cfg n tr g es. apply spec_sound_gen. apply act_q_lenient. Qed.
 Print Assumptions promise_resolved_with_its_block.
+
+(* No promise is completed twice and no handler answers twice, in any trace. *)
+Theorem one_answer : forall cfg n tr g es,
+  grun (ginit cfg n) tr = Some (g, es) -> one_answer_b es = true.
+Proof. exact one_answer_holds. Qed.
+Print Assumptions one_answer.
+
+(* A handler that has answered success has, for every sub-push of every chunk, an attempt whose promise was
+   completed with success (and, by ack_sound, whose rows a successful INSERT contained) ... *)
+Theorem success_needs_a_successful_attempt : forall cfg n tr g es h hd i sp,
+  grun (ginit cfg n) tr = Some (g, es) ->
+  nth_error (hs g) h = Some hd -> nth_error (h_subs hd) i = Some sp ->
+  h_answer hd = Some true ->
+  exists k v, lookup_store (PSub h i k) (store g) = Some (v, true).
+Proof. exact success_needs_successful_attempt. Qed.
+Print Assumptions success_needs_a_successful_attempt.
+
+(* ... hence: if every completed attempt of some sub-push failed -- in particular when all RetryAttempts attempts
+   were completed with an error, and also when RetryAttempts = 0 -- the handler has not answered success, and
+   (completed promises never change) never will. *)
+Theorem exhaustion_is_error : forall cfg n tr g es h hd i sp,
+  grun (ginit cfg n) tr = Some (g, es) ->
+  nth_error (hs g) h = Some hd -> nth_error (h_subs hd) i = Some sp ->
+  (forall k v ok, lookup_store (PSub h i k) (store g) = Some (v, ok) -> ok = false) ->
+  h_answer hd <> Some true.
+Proof.
+  intros cfg n tr g es h hd i sp Hrun Hh Hi Hall Ha.
+  destruct (success_needs_successful_attempt _ _ _ _ _ _ _ _ _ Hrun Hh Hi Ha) as (k & v & L).
+  specialize (Hall _ _ _ L). discriminate.
+Qed.
+Print Assumptions exhaustion_is_error.
+
+(* "Every request eventually gets an answer while the database keeps answering", as absence of wedged states:
+   from every state a running worker can reach through requests accounted with a positive size, the continuation
+   drain (return of the Do that is out, PlanFlush, dial, swapBuffers, Do, successful return) is executable,
+   completes every pending promise with success and leaves the worker empty. *)
+Theorem can_always_drain : forall k g mq tr s vs,
+  forallb pos_request tr = true ->
+  srun (svc_init k g mq) tr = Some (s, vs) -> running s = true ->
+  exists s' vs', srun s (drain s) = Some (s', vs') /\ results s' = [] /\ inflight s' = None /\
+    dones vs' = map (fun pr => (fst pr, true))
+                    (match inflight s with Some po => p_res po | None => [] end ++ results s).
+Proof.
+  intros k g mq tr s vs Hp Hr Hrun. apply svc_can_always_drain; [|assumption].
+  eapply pos_inv_run; eauto. apply pos_inv_init.
+Qed.
+Print Assumptions can_always_drain.
+
+(* Without the positive-size guard the statement is false: swapBuffers tests svc.size == 0, so a request that
+   carries a row but is accounted with size 0 is accepted and then never sent nor completed by any sequence of
+   flushes (until some other request with a positive size joins the batch). *)
+Theorem can_always_drain_any_size_refuted : ~ (forall k g mq tr s vs,
+  srun (svc_init k g mq) tr = Some (s, vs) -> running s = true ->
+  exists s' vs', srun s (drain s) = Some (s', vs') /\ results s' = []).
+Proof.
+  intros H.
+  destruct (H KSamples 0%nat 0%Z [SRequest (PEnv 1) zero_req 0] zero_state [] eq_refl eq_refl) as (s' & vs' & R & E).
+  destruct (zero_size_request_is_never_answered (drain zero_state) s' vs' eq_refl R) as [_ X].
+  rewrite X in E. discriminate.
+Qed.
+Print Assumptions can_always_drain_any_size_refuted.
